@@ -71,7 +71,7 @@ pub fn run_hung(fixture_base: &[u8], target: &[u8], patch: &[u8]) -> (Vec<String
         let mut runner = Runner::new();
         runner.write_lib("libapp.so", fixture_base);
         let yaml = Yaml { app_id: "app-hung".into(), channel: None, base_url: None, auto_update: Some(false), key: None };
-        let init = Op::Init { version: "1.0.0+1".into(), dirs: 0, libs: vec!["libapp.so".into()], yaml: Ok(yaml) };
+        let init = Op::Init { version: "1.0.0+1".into(), dirs: 0, libs: vec!["libapp.so".into()], yaml: Ok(yaml), count: None };
         runner.exec(&init);
         let offer = Offer { number: 1, hash: sha256_hex(target), url: "https://cdn.example/patch/1".into(), sig: None };
         let resp = Resp { available: true, patch: Some(offer.clone()), rolled_back: None };
